@@ -522,6 +522,9 @@ where
         }
 
         let mut escape: Option<Escape> = None;
+        // Whether anything belonging to an argument (a character, a quote or a
+        // backslash) has been seen since the last separator.
+        let mut in_argument = false;
         let mut i = 0;
         loop {
             if i == pending.len() {
@@ -542,7 +545,7 @@ where
                             format!("Unterminated quote: {q}"),
                         ));
                     }
-                    if i == 0 {
+                    if !in_argument {
                         return Ok(None);
                     }
                     pending.clear();
@@ -560,15 +563,24 @@ where
                     result.push(c);
                     escape = None;
                 }
-                (None, c @ (b'"' | b'\'')) => escape = Some(Escape::Quote(c)),
-                (None, b'\\') => escape = Some(Escape::Slash),
+                (None, c @ (b'"' | b'\'')) => {
+                    escape = Some(Escape::Quote(c));
+                    in_argument = true;
+                }
+                (None, b'\\') => {
+                    escape = Some(Escape::Slash);
+                    in_argument = true;
+                }
                 (None, c) if c.is_ascii_whitespace() => {
-                    if !result.is_empty() {
+                    if in_argument {
                         terminated_by_newline = c == b'\n';
                         break;
                     }
                 }
-                (None, c) => result.push(c),
+                (None, c) => {
+                    result.push(c);
+                    in_argument = true;
+                }
             }
 
             i += 1;
